@@ -53,6 +53,7 @@ type e2eCase struct {
 	SetSem  bool       `json:"set,omitempty"`   // judged as a set: every due key at least once, nothing else
 	Redirect string    `json:"redirect,omitempty"` // the target listeners answer <code>:<Location>
 	TLS     bool       `json:"tls,omitempty"`
+	Inject  int        `json:"inject,omitempty"` // the far end answers that many TCP probes with a malformed SYN+ACK
 }
 
 // firstCPU is one CPU this process may run on (for taskset).
@@ -72,6 +73,9 @@ func htons(v uint16) uint16 { return v<<8 | v>>8 }
 
 // sniffMark: the wire log creates <out>.mark once it has seen that many probes (live scans are interrupted after that)
 var sniffMark int
+
+// sniffInject: the wire log answers that many TCP probes with a malformed SYN+ACK
+var sniffInject int
 
 // sniff records, until SIGTERM, the probes that arrive on iface and writes their sorted keys to path.
 func sniff(iface, proto, path string) {
@@ -99,6 +103,7 @@ func sniff(iface, proto, path string) {
 	buf := make([]byte, 65536)
 	stopping := time.Time{}
 	marked := false
+	injected := 0
 	for {
 		select {
 		case <-stop:
@@ -145,6 +150,33 @@ func sniff(iface, proto, path string) {
 			switch {
 			case proto == "tcp" && p == 6 && n >= 14+ihl+4:
 				keys = append(keys, []byte{dst[0], dst[1], dst[2], dst[3], f[14+ihl+2], f[14+ihl+3]})
+				if sniffInject > 0 && injected < sniffInject && n >= 14+ihl+14 {
+					// a misbehaving target: answer the probe with a SYN+ACK whose TCP header is cut to 16 bytes
+					injected++
+					r := make([]byte, 14+20+16)
+					copy(r[0:6], f[6:12])
+					copy(r[6:12], f[0:6])
+					r[12], r[13] = 8, 0
+					ip := r[14:34]
+					ip[0], ip[8], ip[9] = 0x45, 64, 6
+					ip[2], ip[3] = 0, 36
+					copy(ip[12:16], f[30:34])
+					copy(ip[16:20], f[26:30])
+					var sum uint32
+					for i := 0; i < 20; i += 2 {
+						sum += uint32(ip[i])<<8 | uint32(ip[i+1])
+					}
+					for sum>>16 != 0 {
+						sum = sum&0xffff + sum>>16
+					}
+					ip[10], ip[11] = byte(^sum>>8), byte(^sum)
+					t := r[34:]
+					copy(t[0:2], f[14+ihl+2:14+ihl+4])
+					copy(t[2:4], f[14+ihl:14+ihl+2])
+					t[12], t[13] = 0x50, 0x12
+					t[14], t[15] = 0xff, 0xff
+					syscall.Sendto(fd, r, 0, &syscall.SockaddrLinklayer{Protocol: htons(syscall.ETH_P_ALL), Ifindex: ifi.Index, Halen: 6})
+				}
 			case proto == "udp" && p == 17 && n >= 14+ihl+4:
 				keys = append(keys, []byte{dst[0], dst[1], dst[2], dst[3], f[14+ihl+2], f[14+ihl+3]})
 			case proto == "icmp" && p == 1 && n >= 14+ihl+1 && f[14+ihl] == 8:
@@ -276,7 +308,8 @@ func runE2E(sx string, c *e2eCase, idx int) {
 		}
 	}
 	frames := fmt.Sprintf("%s/frames%d.txt", tmpDir, idx)
-	sn := exec.Command("ip", "netns", "exec", ns, os.Args[0], "-sniff", "v1", "-proto", c.Proto, "-out", frames, "-mark", fmt.Sprint(c.NWant))
+	sn := exec.Command("ip", "netns", "exec", ns, os.Args[0], "-sniff", "v1", "-proto", c.Proto, "-out", frames, "-mark", fmt.Sprint(c.NWant),
+		"-inject", fmt.Sprint(c.Inject))
 	if strings.HasPrefix(c.Proto, "listen:") {
 		// application scans: the targets are local addresses of the namespace, a listener is the log
 		for _, a := range strings.Split(c.Local, ",") {
@@ -622,6 +655,26 @@ func tableCases(r *hlib.SplitMix64, seedBase int) []e2eCase {
 		cs = append(cs, e2eCase{Kind: "e2e", Class: name + ":proxy-env", Proto: fmt.Sprintf("listen:%d,9999", port), Argv: argv, Want: w, NWant: len(w),
 			Env: env, Local: strings.Join(loc, ","), SetSem: true,
 			Decoy: hex.EncodeToString([]byte{byte(decoy >> 24), byte(decoy >> 16), byte(decoy >> 8), byte(decoy), 0x27, 0x0f}), Seed: int64(seedBase + len(cs))})
+	}
+	// a chunked SYN scan (201 single ports: two engine runs) of one host that misbehaves: the first probes are answered
+	// with SYN+ACK segments whose TCP header is cut to 16 bytes (they pass the capture filter and fail to decode); the
+	// scan logs the errors - and every port must still be probed
+	{
+		var sb strings.Builder
+		var ports []int
+		for p := 41000; p <= 41200; p++ {
+			if p > 41000 {
+				sb.WriteByte(',')
+			}
+			fmt.Fprintf(&sb, "%d", p)
+			ports = append(ports, p)
+		}
+		a := o | 77
+		argv := []string{"tcp", "syn", "--gwmac", "02:00:00:00:00:02", "-a", tmpDir + "/empty.cache", "-p", sb.String(), "-i", "v0",
+			"--exit-delay", "150ms", "--json", tgt.Dotted(a)}
+		w := crossWant([]uint32{a}, ports)
+		cs = append(cs, e2eCase{Kind: "e2e", Class: "tcp-syn:malformed-reply", Proto: "tcp", Argv: argv, Want: w, NWant: len(w), Inject: 30,
+			Seed: int64(seedBase + len(cs))})
 	}
 	return cs
 }
